@@ -159,11 +159,23 @@ def oracle_seq(backend, ops, outs):
             res = out.split("|")
             prev_round = None
             mutated = False
+            dead = False
             for t, o in zip(toks, res):
+                if t == "cancel":
+                    dead = not mem
+                    if o != "ok":
+                        return f"cursor session: cancel answered {o!r}"
+                    continue
+                if dead:
+                    if o != "cancelled":
+                        return f"cursor {t} after the session's context was cancelled answered {o!r}"
+                    continue
                 if t.startswith("put:"):
                     a = t.split(":"); sp.put(int(a[1]), a[2], a[3]); mutated = True; continue
                 if t.startswith("del:"):
                     sp.delete(int(t[4:])); mutated = True; continue
+                if o.startswith(("err:", "panic")) or o in ("cancelled", "bad-op", "nil"):
+                    return f"cursor {t} answered {o!r}"
                 rd = parse_read(o)
                 if rd is not None:
                     # read soundness: the label carries its own data
@@ -351,7 +363,7 @@ def gen_ctx(rng, tier, backend):
                 head += 1
                 seq.append(f"put {head} {long_sig(head, 4)} {long_sig(head - 1, 4)}")
             else:
-                seq += ["last", f"get {r2.range(0, head + 1)}", "cur first next next"]
+                seq += ["last", f"get {r2.range(0, head + 1)}", "cur first next next", "cur first next cancel next last seek:1", "cur cancel first"]
         if i % 2 == 0:
             seq += ["close", "get 0", "last", "len", f"put {head + 1} aa bb", "del 0", "cur first", "saveto", f"hold 0 get 0", "cmp 0",
                     "cx get 0", "cx saveto", "close"]
